@@ -24,6 +24,7 @@ DECIDED = [
     "R-C05-POLL: in-memory consume refreshes delayed->waiting before and inside its idle loop; Redis looks at the delayed "
     "set before the normal list on every poll; RabbitMQ's delayed queue dead-letters into the main queue",
     "R-C05-CMP (elapsed): a deferred_until that has passed is not handed out again as next execution time (C06's first-run rule reused)",
+    "R-C05-CMP (one clock): the in-memory refresh reads the clock exactly once, into a plain `now`",
 ]
 NOT_DECIDED = ["the delivery latency bound after T (timing)", "RabbitMQ per-message TTL head-of-line blocking (server behaviour)"]
 ASSUMPTIONS = ["Redis ZRANGE BYSCORE -inf..now returns only members with score <= now", "RabbitMQ dead-letters expired messages of a queue to its DLX routing key"]
